@@ -593,6 +593,11 @@ func (c *Client) PerformTransaction(msg *stun.Message, to net.Addr, ignoreResult
 	c.log.Tracef("Start %s transaction %s to %s", msg.Type, trKey, tr.To)
 	_, err := c.conn.WriteTo(tr.Raw, to)
 	if err != nil {
+		// The transaction ends here: do not leave it behind in the table.
+		c.mutexTrMap.Lock()
+		c.trMap.Delete(trKey)
+		c.mutexTrMap.Unlock()
+
 		return client.TransactionResult{}, err
 	}
 
